@@ -20,13 +20,14 @@ sys.path.insert(0, os.environ.get('VERIF_REPO', '/repo'))
 
 
 _JOBS = None
+_BUDGET = 600
 
 
 def _run_job(k):
     from pyvc import lemma
     src, reg, jobs = _JOBS
     name, b = jobs[k]
-    return k, lemma.run_lemma(src, reg, name, b, opts={'max_paths': 40000, 'budget_s': 600})
+    return k, lemma.run_lemma(src, reg, name, b, opts={'max_paths': 40000, 'budget_s': _BUDGET})
 
 
 def c03_multisig(tier='quick', seed=0):
@@ -146,8 +147,9 @@ def c03_multisig(tier='quick', seed=0):
         return build
     obs, summary, und = [], {}, []
     jobs = [('C03/abs-sound', build_abs_sound)] + [(f'C03/m{m}n{n}', mk_lemma(m, n)) for m, n in shapes]
-    global _JOBS
+    global _JOBS, _BUDGET
     _JOBS = (src, reg, jobs)
+    _BUDGET = 600 if tier == 'quick' else 3000
     from multiprocessing import get_context
     # largest shapes first; forked workers inherit the job table (closures are not pickled)
     order = sorted(range(len(jobs)), key=lambda k: -k)
@@ -164,10 +166,55 @@ def c03_multisig(tier='quick', seed=0):
             und.append((f'lemma {name}', r['undecided'] or r['error']))
         elif r['paths'] == 0 or not r['obligations']:
             und.append((f'lemma {name}', 'vacuous: no path / no obligation'))
+    if any(o['status'] == 'failed' for o in obs):
+        # a refuted lemma: look for a concrete failing input on the REAL code (bounded native search), so
+        # that the violation carries an input that replays
+        cex = native_search()
+        if cex is not None:
+            obs.append({'name': 'lemma/C03/native-counterexample', 'kind': 'lemma', 'status': 'failed',
+                        'backend': 'native(search guided by the refuted lemma)', 'time_s': 0.0, 'path': '', 'info': cex,
+                        'inputs': None})
     out = {'obligations': obs, 'summary': summary}
     if und:
         out['undecided'] = und
     return out
+
+
+def native_search():
+    """real OP_CHECK_MULTISIG (through run_auth_scripts) against the property's own predicate, over 3 real
+    key pairs, signatures with flag 00 / 01 by each, one junk signature, all key lists of 1..3 distinct keys
+    and all signature lists of 1..n entries: returns the first disagreement or None"""
+    import itertools
+    from nacl.signing import SigningKey
+    import tapescript
+    from tapescript import tools
+    import tapescript.functions as F
+    sf = {'sigfield1': b'abc', 'sigfield2': b'de'}
+    seeds = [bytes([i + 1]) * 32 for i in range(3)]
+    pks = [bytes(SigningKey(s_).verify_key) for s_ in seeds]
+    sigs = {}
+    for i, s_ in enumerate(seeds):
+        for fl in ('00', '01'):
+            w = tools.make_single_sig_witness(s_, sf, fl)
+            sigs[(i, fl)] = bytes(w)[2:] if bytes(w)[0] == F.opcodes_inverse['OP_PUSH1'][0] else bytes(w)[1:]
+    sigs[('junk', '00')] = b'\x07' * 64
+    names = list(sigs)
+    for n in (1, 2, 3):
+        for keyidx in itertools.permutations(range(3), n):
+            for m in range(1, n + 1):
+                for chosen in itertools.product(names, repeat=m):
+                    lock = tools.Script.from_src(' '.join(f'push x{pks[k].hex()}' for k in keyidx)
+                                                 + f' check_multisig x01 d{m} d{n}')
+                    wit = tools.Script.from_src(' '.join(f'push x{sigs[c].hex()}' for c in chosen))
+                    got = F.run_auth_scripts([bytes(wit), bytes(lock)], dict(sf))
+                    signers = [c[0] for c in chosen]
+                    want = ('junk' not in signers and len(set(signers)) == m and all(s_ in keyidx for s_ in signers)
+                            and len(set(chosen)) == m)
+                    if got is not want:
+                        return {'keys': [pks[k].hex() for k in keyidx], 'm': m, 'n': n, 'allowed_flags': '01',
+                                'signatures': [{'signer': c[0], 'flag': c[1], 'sig': sigs[c].hex()} for c in chosen],
+                                'sigfields': {k: v.hex() for k, v in sf.items()}, 'verdict': got, 'expected': want}
+    return None
 
 
 if __name__ == '__main__':
